@@ -112,7 +112,7 @@ def range_case(draw):
     sysd = draw(matrix_system(m=(2, 4), shape="under", surplus=(1, 2), ub_kinds=("finite",), lb_kinds=("zero", "zero", "pos"), sub_cond=1e4))
     rows = draw(target_rows(sysd, ["interior", "interior", "facet", "vertex"], nrows=(1, 2)))
     s, c, asserted = draw(unit_factors(Sys(sysd)))
-    return dict(system=sysd, rows=rows, s=s, c=c, asserted=asserted)
+    return dict(system=sysd, rows=rows, s=s, c=c, asserted=asserted, n_spaced=draw(st.sampled_from([None, 2, 3, 5])))
 
 
 def body_range(case):
@@ -149,6 +149,18 @@ def body_range(case):
             check(bool(ok), "units:range-not-equivariant",
                   f"range of solutions does not scale by 1/s: [{np.asarray(mn1).tolist()}, {np.asarray(mx1).tolist()}] vs s*[{(np.asarray(mn2) * s).tolist()}, {(np.asarray(mx2) * s).tolist()}] (s={s:.4g}, c={c:.4g}, kind {r['kind']})")
             labs.append("nt:range-equivariance" if max(s, 1 / s, c, 1 / c) >= 3 else "range-small-change")
+            if case.get("n_spaced") and r["kind"] == "interior":
+                # the evenly spaced solutions requested with n= are intensities too: they scale by exactly 1/s
+                Xs = []
+                for sv, bb, what in ((sv1, b, "original"), (sv2, b * c, "twin")):
+                    with calling(f"range_of_solutions(n={case['n_spaced']}) ({what} units)"):
+                        res = range_of_solutions(bb[None, :], sv.A, n=case["n_spaced"], **sv.kwargs())
+                    Xs.append(np.asarray(res[2][0], dtype=float))
+                check(Xs[0].shape == Xs[1].shape, "units:spaced-not-equivariant", f"{Xs[0].shape} vs {Xs[1].shape} spaced solutions in the two unit systems")
+                dev = float(np.max(np.abs(Xs[1] * s - Xs[0]) / rng))
+                check(dev <= 1e-6, "units:spaced-not-equivariant",
+                      f"spaced solutions do not scale by 1/s: worst deviation {dev:.3g} of the bound range (s={s:.4g}, c={c:.4g}, n={case['n_spaced']})")
+                labs.append("spaced")
         else:
             labs.append("stress:agree" if ok else "stress:disagree")
     return labs
